@@ -142,7 +142,22 @@ def xopP (m : Mat) (op : String) : P (Option XOp) := do
   | "graphz", _ => pure (some .graphz)
   | "perm", .bcsr _ => let p ← natList; let q ← natList; pure (some (.bperm p.toArray q.toArray))
   | "tri", .dense _ => pure (some .triDense)
+  | "xclone", _ =>
+    let d ← nat; let i ← nat
+    if d > 1 || i > 1 || (d == 0 && i == 0) then pure none else pure (some (.xclone (d == 1) (i == 1)))
   | _, _ => pure none
+
+/-- the 13 aliasing observations of a cross-type clone chain a -> b -> c: (sv si w w) for a/b, b/c, a/c, then
+    "formatting the source changes the final clone" -/
+def showX (m : Mat) (dDiff iDiff : Bool) (mode : CloneMode) : String :=
+  let hc := heapOf m
+  let r1 := hc.1.xclone (truncBits 53) hc.2 dDiff iDiff mode
+  let r2 := r1.1.xclone (truncBits 53) r1.2 dDiff iDiff mode
+  let h := r2.1
+  let b := fun (x : Bool) => if x then "1" else "0"
+  let one := fun (o : Bool × Nat × Bool × Bool) => s!"{b o.1} {o.2.1} {b o.2.2.1} {b o.2.2.2}"
+  let ac := pairObservation h hc.2 r2.2 mark 0
+  s!"X {one (pairObservation h hc.2 r1.2 mark 0)} {one (pairObservation h r1.2 r2.2 mark 0)} {one ac} {b ac.2.2.1} "
 
 def prefixX (m : Mat) : XOp → String
   | .layoutz | .layouta _ => "AL1 " ++ showK m .layout
@@ -154,6 +169,16 @@ def stepsP : Nat → Mat → String → P String
     let ts ← get
     let name := ts.headD ""
     match (← (do let _ ← tok; xopP m name)) with
+    | some (.xclone d i) =>
+      let k ← nat
+      let mode? : Option CloneMode := match k with
+        | 0 => some .shallow | 1 => some .layout | 2 => some .weak | 3 => some .deep | 4 => some .allocate | _ => none
+      match mode? with
+      | some mode =>
+        match m.stepX (truncBits 53) (.xclone d i) with
+        | .ok t _ => stepsP n t (acc ++ "| " ++ showX m d i mode ++ dump t ++ " ")
+        | _ => pure "BAD-OP"
+      | none => pure "BAD-OP"
     | some x =>
       match m.stepX roundDt x with
       | .ok t (some src) => stepsP n t (acc ++ "| " ++ prefixX m x ++ "S " ++ dump src ++ " " ++ dump t ++ " ")
